@@ -171,7 +171,8 @@ PROPS = {
                 "queued and posted work pending; completion guards latched per entry; non-trivial = a completion transition fired",
     },
     "C11": {
-        "jobs": jobs(["blocking", "blocking_completion"], ["plain", "posts", "queue", "lifecycle"], 1000, 50000, variants=ALLV),
+        "jobs": jobs(["blocking", "blocking_completion"], ["plain", "posts", "queue", "lifecycle"], 1000, 50000, variants=ALLV)
+                + rand_jobs("blk", ["plain", "posts", "queue"], 600, 8000, nthorough=12),
         "nontrivial": ["swallowed"],
         "rule": "plans on a 3-region machine with a terminate state and two interrupt states (one / two end events); non-trivial = an "
                 "external event was swallowed (handled code, no behaviour invoked)",
@@ -202,7 +203,8 @@ PROPS = {
                 + [job("events_hier", "common", 1000, 40000, mode="diff:backend")]
                 + [job(f, "common", 600, 20000, variants=ALLV, mode="diff:backend") for f in ["ids_implicit", "hist_exit_pt", "completion_regions"]]   # findings KF-3, KF-4, KF-5
                 + rand_jobs("struct", ["common"], 600, 8000, mode="diff:backend") + rand_jobs("hist", ["common"], 600, 8000, mode="diff:backend")
-                + rand_jobs("pseudo", ["plain"], 0, 6000, mode="diff:backend") + rand_jobs("compl", ["common"], 0, 6000, mode="diff:backend"),
+                + rand_jobs("pseudo", ["plain"], 0, 6000, mode="diff:backend") + rand_jobs("compl", ["common"], 0, 6000, mode="diff:backend")
+                + rand_jobs("blk", ["common"], 0, 6000, nthorough=12, mode="diff:backend"),
         "nontrivial": ["transition"],
         "rule": "the same plan (events, guard vectors, posts, enqueue/drain, stop/start, throws) executed on back+runtime, back+compile-time, "
                 "backmp11 flat_fold / function_pointer_array / favor_compile_time; normalised traces (false completion-guard re-tries dropped, "
